@@ -16,10 +16,18 @@ Streams
                  successful; nothing of the user code may run when the project is rejected.  Every test body
                  READS every injected attribute of its suite and relies on the fixture's value.
 
+Round 3: test callbacks, fixture functions and setup_suite hooks are written in several SHAPES (plain, lambda, a
+functools.wraps-based decorator whose wrapper has its own parameters, a real mock.patch, callable object, bound method):
+the names a callable needs are READ by the model from the description of how it was written (`Model/Callable.lean`
+`neededArgs`, table `callableTable` re-extracted from the real `get_callable_args`), the called callables record the
+keyword arguments they receive; `@lcc.fixture(scope, per_thread=True)` is declared for EVERY scope (the decorator's refusal
+is the first stage of `Prepare.prepareFull`, table `declTable`).
+
 Injected attributes are declarations `ident = lcc.inject_fixture(fixture | nothing)` with a naming shape (public `x`,
 private `_x`, name-mangled `__x`, dunder-like `__x__`) and a place of assignment (class body, base class, `__init__` on the
 instance, top level of a suite MODULE); `tables` re-extracts "shape x place -> discovered / assigned" from the real loader.
 """
+import functools
 import os
 import re
 import shutil
@@ -27,18 +35,22 @@ import sys
 import tempfile
 import threading
 import types
+from unittest import mock
 
 import common as C
 
 PROPERTY = "C14"
-LEAN_MODULES = ["LccModel.Props.C14", "LccModel.Props.C14Inject"]
-PROPS_FILES = ["LccModel/Props/C14.lean", "LccModel/Props/C14Inject.lean"]
-NAMESPACES = {"LccModel/Props/C14.lean": "LccModel.C14", "LccModel/Props/C14Inject.lean": "LccModel.C14I"}
+LEAN_MODULES = ["LccModel.Props.C14", "LccModel.Props.C14Inject", "LccModel.Props.C14Callable"]
+PROPS_FILES = ["LccModel/Props/C14.lean", "LccModel/Props/C14Inject.lean", "LccModel/Props/C14Callable.lean"]
+NAMESPACES = {"LccModel/Props/C14.lean": "LccModel.C14", "LccModel/Props/C14Inject.lean": "LccModel.C14I",
+              "LccModel/Props/C14Callable.lean": "LccModel.C14C"}
 TABLE_OPENS = ("LccModel.Inject",)
 DRIVER = "drivers/C14.lean"
 TRUSTED_BASE = [
     "Lean 4.33.0 kernel; axioms of the property theorems ⊆ {propext, Classical.choice, Quot.sound}",
-    "hand-written models LccModel/Model/{Fixture,Deps,Policy,Prepare,Inject}.lean of fixture.py (FixtureRegistry, ScheduledFixtures), "
+    "hand-written models LccModel/Model/{Fixture,Deps,Policy,Prepare,Inject,Callable,FixtureDecl}.lean of fixture.py (FixtureRegistry, ScheduledFixtures, "
+    "the @lcc.fixture decorator), helpers/introspection.py (get_callable_args: own positional parameters of the called object minus the bound self; "
+    "re-extracted on every run over 20 ways of writing a callable x 3 parameter lists, Generated/C14TablesCheck.lean callable_table_agrees), "
     "suite/core.py (resolve_tests_dependencies, Suite._load_injected_fixtures / inject_fixtures), helpers/introspection.py "
     "(get_object_attributes), metadatapolicy.py and project.py (PreparedProject.create)",
     "dir() (alphabetical listing), Python's name mangling of __x inside class bodies and attribute shadowing are represented by "
@@ -53,19 +65,27 @@ ASSUMPTIONS = [
     "test paths are distinct and fixture/suite/test names are Python identifiers (dict keyed by path / by name)",
     "policy rule names are distinct; property values and tags are strings (enforced by the loader)",
     "callable dependencies (`depends_on(lambda test: ...)`) are pure and total; fixture/test/hook bodies do not fail",
-    "per_thread=True only with scope session/suite (the @lcc.fixture decorator rejects anything else at declaration time)",
+    "a declaration refused by the @lcc.fixture decorator (per_thread=True with scope pre_run / test) surfaces as the FixtureLoadingError that "
+    "load_fixtures_from_file raises around the decorator's AssertionError (the harness wraps the exec of the generated fixture source the same way): "
+    "a rejection before anything executes (stage `decl`), not a ValidationError",
+    "callables: positional-only parameters, functools.partial objects (get_callable_args answers ['self'] for them: pinned by callableTable, "
+    "not generated in projects) and wrappers whose body does not call the wrapped function correctly are outside the generated class",
     "recursion depth of valid chains stays far below sys.getrecursionlimit() (generated chains <= 8 fixtures, <= 7 tests)",
     "attribute identifiers of a suite are pairwise distinct (no instance attribute shadowing a class attribute of the same name); "
     "InjectedFixture objects returned by properties are not generated (the helper skips properties)",
     "leaf suites without tests are generated rarely (3%): D1 (empty suite + nb_threads >= 2 raised LookupError in on_suite_end) "
     "was repaired in /repo by 273e673; its witness stays in the corpus of C14.run",
 ]
-RULE = ("generated project; non-trivial = at least one fixture-to-fixture dependency edge and at least one consumer (test argument, "
+RULE = ("generated project (fixture / test / setup_suite callables written plain or as lambda / functools.wraps wrapper with own parameters / "
+        "mock.patch / callable object / bound method; per_thread for every scope); non-trivial = at least one fixture-to-fixture dependency edge and at least one consumer (test argument, "
         "setup_suite argument or injected attribute); both accepted and rejected projects must appear in a run; "
         "distinct = hash of the whole case")
 EXPLANATION = ("Completeness (prepare = ok iff declarative validity; errors are ValidationError classes; recursion bounds suffice on "
                "ALL inputs) and run-time soundness of the fixture machinery are Lean theorems (LccModel.C14.*); the models are tied "
-               "to the code by C14.validate (exact error kind and scheduling lists) and the run half by C14.run.")
+               "to the code by C14.validate (exact error kind and scheduling lists) and the run half by C14.run.  The fixture names a "
+               "callable needs are the own positional parameters of the object that is called, whatever it wraps (C14C.needed_ignores_wrapped, "
+               "callable_arguments_found; table callableTable), and a per-thread fixture of an accepted project has scope session or suite "
+               "(C14C.prepareFull_accepts_iff, refused_declaration_never_accepted; table declTable).")
 
 SCOPE_LEVEL = {"test": 1, "suite": 2, "session": 3, "pre_run": 4}
 BUILTINS = ("cli_args", "project_dir")
@@ -92,6 +112,64 @@ def chk_inj(holder, suite_path, attr, expected, test_path):
         return "injected attribute %s of suite %s does not hold the value of its fixture: %r" % (attr, suite_path, v)
     hit("inj-ok:%s:%s:%s" % (suite_path, attr, test_path))
     return None
+
+
+def rec(tag, **kw):
+    """the callable the framework really CALLS records the keyword arguments it received"""
+    _HITS.append("args:%s:%s" % (tag, ",".join("%s=%s" % (k, v if isinstance(v, (str, int)) else type(v).__name__)
+                                               for k, v in sorted(kw.items()))))
+
+
+# --------------------------------------------------------------------------------------------
+# callables: HOW a test / fixture / setup_suite callable is written (round 3, seeded C14-7)
+#   plain   an ordinary function / method
+#   lambda  (fixtures) a lambda
+#   wraps   a `functools.wraps`-based decorator whose wrapper has its OWN explicit parameters: it renames them for the
+#           wrapped function (`w_<name>`) and supplies one more (`sup`) itself
+#   patch   a real `unittest.mock.patch("os.getcwd")`: the wrapper is `patched(*args, **kwargs)`, the wrapped function
+#           takes the mock — the callable that is called has NO named parameter (only generated where nothing is needed)
+#   cobj    (fixtures) an instance of a class defining `__call__(self, ...)`
+#   bound   (fixtures) a bound method of a holder object, decorated in the class body
+# The fixture names a callable NEEDS are the positional parameters of the object that is really called (minus `self`).
+# --------------------------------------------------------------------------------------------
+TEST_CALLS = ("plain", "wraps", "patch")
+DECL_CALLS = ("plain", "lambda", "wraps", "patch", "cobj", "bound")
+
+
+def inner_params(own):
+    """parameters of the function wrapped by a `wraps` / `patch` callable whose own parameters are `own`"""
+    return ["w_" + a for a in own] + ["sup"]
+
+
+def call_kind(x, key="call"):
+    """the shape a test / fixture declaration / suite (key `setup_call`) is written in, normalised: a `patch` callable
+    that needs something is written as `wraps`; generator fixtures are never lambdas / patched functions"""
+    kind = x.get(key) or "plain"
+    own = x.get("setup_args") if key == "setup_call" else (x["args"] if "args" in x else x.get("params"))
+    if kind == "patch" and (own or x.get("gen")):
+        return "wraps"
+    if kind == "lambda" and x.get("gen"):
+        return "plain"
+    return kind
+
+
+def callable_desc(kind, own, in_class):
+    """the callable as it is WRITTEN, for the Lean model (`Model/Callable.lean`): {kind, params, wrapped?}"""
+    self_ = ["self"] if in_class else []
+    if kind == "patch":
+        return {"kind": "boundMethod" if in_class else "function", "params": [], "wrapped": self_ + list(own) + ["m"]}
+    if kind == "wraps":
+        return {"kind": "boundMethod" if in_class else "function", "params": self_ + list(own),
+                "wrapped": self_ + inner_params(own)}
+    if kind == "cobj":
+        return {"kind": "callableObject", "params": ["self"] + list(own)}
+    if kind == "bound":
+        return {"kind": "boundMethod", "params": ["self"] + list(own)}
+    return {"kind": "boundMethod" if in_class else "function", "params": self_ + list(own)}     # plain, lambda
+
+
+def _kwargs_src(names):
+    return ", ".join("%s=%s" % (n, n) for n in names)
 
 
 # --------------------------------------------------------------------------------------------
@@ -237,27 +315,187 @@ def tables(ctx):
         own = list(suite.get_injected_fixture_names()) == ["zz"]
         keys.append((lean, "true" if own else "false", {"inject_fixture": arg_src, "uses_attribute_name": own}))
     imp = ("LccModel.Model.Inject",)
+    impc = ("LccModel.Model.Callable",)
     return [C.Table("discoveryTable", "List ((Shape × Place) × Bool)", disc, imports=imp),
             C.Table("assignTable", "List ((Shape × Place) × Bool)", asg, imports=imp),
             C.Table("twiceTable", "List ((Shape × Place) × Bool)", twice, imports=imp),
-            C.Table("keyTable", "List (Option String × Bool)", keys, imports=imp)]
+            C.Table("keyTable", "List (Option String × Bool)", keys, imports=imp),
+            C.Table("callableTable", "List (LccModel.Callable.Callable × List String)", callable_rows(), imports=impc),
+            C.Table("declTable", "List ((LccModel.Fixture.Scope × Bool) × Bool)", decl_rows(), imports=impc)]
+
+
+def _lean_strs(l):
+    return "[" + ", ".join('"%s"' % x for x in l) + "]"
+
+
+def callable_shapes(own):
+    """(shape name, real callable object, description of HOW it was written) for every way a test / fixture / hook
+    callable with the own positional parameters `own` can be written"""
+    inner = inner_params(own)
+    ns = {"functools": functools, "mock": mock}
+    P, SP, IP, SIP = (", ".join(x) for x in (own, ["self"] + own, inner, ["self"] + inner))
+    CP = ", ".join(["cls"] + own)
+    src = """
+def plain(%(P)s): pass
+lam = lambda %(P)s: 0
+def genf(%(P)s): yield 0
+def defaults(%(P)s%(sep)sq=1, *va, k=2, **kw): pass
+def inner(%(IP)s): pass
+@functools.wraps(inner)
+def wraps(%(P)s): pass
+@functools.wraps(wraps)
+def wraps2(%(P)s%(sep)sextra): pass
+@functools.wraps(inner)
+def varargs(*args, **kwargs): pass
+@mock.patch('os.getcwd')
+def patched(%(P)s%(sep)sm): pass
+@mock.patch('os.getcwd')
+@functools.wraps(inner)
+def patched_wraps(%(P)s%(sep)sm): pass
+partial = functools.partial(plain)
+partial_kw = functools.partial(inner, sup=0)
+class CO:
+    def __call__(%(SP)s): pass
+class COW:
+    def inner(%(SIP)s): pass
+    @functools.wraps(inner)
+    def __call__(%(SP)s): pass
+class H:
+    def method(%(SP)s): pass
+    def inner(%(SIP)s): pass
+    @functools.wraps(inner)
+    def mwraps(%(SP)s): pass
+    @mock.patch('os.getcwd')
+    def mpatched(%(SP)s, m): pass
+    @staticmethod
+    def static(%(P)s): pass
+    @classmethod
+    def classm(%(CP)s): pass
+    @staticmethod
+    @functools.wraps(inner)
+    def swraps(%(P)s): pass
+""" % {"P": P, "SP": SP, "IP": IP, "SIP": SIP, "CP": CP, "sep": ", " if own else ""}
+    exec(src, ns)
+    h = ns["H"]()
+    self_ = ["self"]
+    return [
+        ("def", ns["plain"], {"kind": "function", "params": own}),
+        ("lambda", ns["lam"], {"kind": "function", "params": own}),
+        ("generator-function", ns["genf"], {"kind": "function", "params": own}),
+        ("def-with-default-varargs-kwonly", ns["defaults"], {"kind": "function", "params": own + ["q"]}),
+        ("wraps", ns["wraps"], {"kind": "function", "params": own, "wrapped": inner}),
+        ("wraps-of-wraps", ns["wraps2"], {"kind": "function", "params": own + ["extra"], "wrapped": own}),
+        ("wraps-varargs", ns["varargs"], {"kind": "function", "params": [], "wrapped": inner}),
+        ("mock.patch", ns["patched"], {"kind": "function", "params": [], "wrapped": own + ["m"]}),
+        ("mock.patch-of-wraps", ns["patched_wraps"], {"kind": "function", "params": [], "wrapped": own + ["m"]}),
+        ("partial", ns["partial"], {"kind": "partialObject", "params": own}),
+        ("partial-binding-a-keyword", ns["partial_kw"], {"kind": "partialObject", "params": inner}),
+        ("callable-object", ns["CO"](), {"kind": "callableObject", "params": self_ + own}),
+        ("callable-object-wraps", ns["COW"](), {"kind": "callableObject", "params": self_ + own, "wrapped": self_ + inner}),
+        ("bound-method", h.method, {"kind": "boundMethod", "params": self_ + own}),
+        ("bound-method-wraps", h.mwraps, {"kind": "boundMethod", "params": self_ + own, "wrapped": self_ + inner}),
+        ("bound-method-mock.patch", h.mpatched, {"kind": "boundMethod", "params": [], "wrapped": self_ + own + ["m"]}),
+        ("staticmethod", h.static, {"kind": "function", "params": own}),
+        ("staticmethod-wraps", h.swraps, {"kind": "function", "params": own, "wrapped": inner}),
+        ("classmethod", h.classm, {"kind": "boundMethod", "params": ["cls"] + own}),
+        ("function-read-from-the-class", ns["H"].method, {"kind": "function", "params": self_ + own}),
+    ]
+
+
+def lean_callable(desc):
+    w = desc.get("wrapped")
+    return "⟨LccModel.Callable.Kind.%s, %s, %s⟩" % (desc["kind"], _lean_strs(desc["params"]),
+                                                    "none" if w is None else "some " + _lean_strs(w))
+
+
+def callable_rows():
+    """`callableTable`: the REAL `get_callable_args` on every way of writing a callable x own parameter lists of length 0..2;
+    the row's input is the description of how the callable was written (never an introspection result)"""
+    from lemoncheesecake.helpers.introspection import get_callable_args
+
+    rows = []
+    for own in ([], ["a"], ["a", "b"]):
+        for name, obj, desc in callable_shapes(own):
+            got = list(get_callable_args(obj))
+            rows.append((lean_callable(desc), _lean_strs(got), {"shape": name, "own": own, "written": desc, "get_callable_args": got}))
+    return rows
+
+
+def decl_rows():
+    """`declTable`: the REAL `@lcc.fixture(scope=…, per_thread=…)` decorator on all 4 x 2 combinations -> accepted?
+    (the same extraction as C15's `declTable`; here it feeds `prepareFull`)"""
+    import lemoncheesecake.api as lcc
+
+    rows = []
+    for scope, lscope in (("test", "test"), ("suite", "suite"), ("session", "session"), ("pre_run", "preRun")):
+        for pt in (False, True):
+            def f():
+                pass
+            try:
+                lcc.fixture(names=["x"], scope=scope, per_thread=pt)(f)
+                ok = True
+            except (AssertionError, ValueError):
+                ok = False
+            rows.append(("(LccModel.Fixture.Scope.%s, %s)" % (lscope, "true" if pt else "false"), "true" if ok else "false",
+                         {"scope": scope, "per_thread": pt, "accepted": ok}))
+    return rows
 
 
 # --------------------------------------------------------------------------------------------
 # case -> real project
 # --------------------------------------------------------------------------------------------
 
+def _fixture_body(out, pad, i, d):
+    out.append("%shit('fixture:%d')" % (pad, i))
+    if d.get("gen"):
+        out.append("%syield %r" % (pad, d["names"][0]))
+        out.append("%shit('teardown:%d')" % (pad, i))
+    else:
+        out.append("%sreturn %r" % (pad, d["names"][0]))
+
+
 def fixtures_source(case):
+    """one declaration per entry of `decls`, written in the shape `call` says (plain function, lambda, wraps-based
+    decorator with its own parameters, real mock.patch, callable object, bound method of a holder object)"""
     out = []
     for i, d in enumerate(case["decls"]):
-        out.append("@lcc.fixture(names=%r, scope=%r, per_thread=%r)" % (list(d["names"]), d["scope"], bool(d["per_thread"])))
-        out.append("def fx%d(%s):" % (i, ", ".join(d["params"])))
-        out.append("    hit('fixture:%d')" % i)
-        if d.get("gen"):
-            out.append("    yield %r" % d["names"][0])
-            out.append("    hit('teardown:%d')" % i)
+        kind = call_kind(d)
+        own = list(d["params"])
+        deco = "lcc.fixture(names=%r, scope=%r, per_thread=%r)" % (list(d["names"]), d["scope"], bool(d["per_thread"]))
+        recl = "rec('fixture:%d'%s)" % (i, "".join(", %s=%s" % (a, a) for a in own))
+        if kind == "lambda":
+            out.append("fx%d = %s(lambda %s: (%s, hit('fixture:%d'), %r)[2])" % (i, deco, ", ".join(own), recl, i, d["names"][0]))
+        elif kind == "wraps":
+            out.append("def fx%d__inner(%s):" % (i, ", ".join(inner_params(own))))
+            _fixture_body(out, "    ", i, d)
+            out.append("@" + deco)
+            out.append("@functools.wraps(fx%d__inner)" % i)
+            out.append("def fx%d(%s):" % (i, ", ".join(own)))
+            out.append("    " + recl)
+            out.append("    return fx%d__inner(%s)" % (i, ", ".join(["w_%s=%s" % (a, a) for a in own] + ["sup=0"])))
+        elif kind == "patch":
+            out.append("@" + deco)
+            out.append("@mock.patch('os.getcwd')")
+            out.append("def fx%d(%s):" % (i, ", ".join(own + ["m"])))
+            _fixture_body(out, "    ", i, d)
+        elif kind == "cobj":
+            out.append("class Fx%d:" % i)
+            out.append("    def __call__(%s):" % ", ".join(["self"] + own))
+            out.append("        " + recl)
+            _fixture_body(out, "        ", i, d)
+            out.append("fx%d = %s(Fx%d())" % (i, deco, i))
+        elif kind == "bound":
+            out.append("class Hx%d:" % i)
+            out.append("    @" + deco)
+            out.append("    def fx(%s):" % ", ".join(["self"] + own))
+            out.append("        " + recl)
+            _fixture_body(out, "        ", i, d)
+            out.append("fx%d = Hx%d().fx" % (i, i))
         else:
-            out.append("    return %r" % d["names"][0])
+            out.append("@" + deco)
+            out.append("def fx%d(%s):" % (i, ", ".join(own)))
+            out.append("    " + recl)
+            _fixture_body(out, "    ", i, d)
         out.append("")
     return "\n".join(out)
 
@@ -275,13 +513,14 @@ def _fixture_values(case):
 
 def _test_source(out, pad, s, path, t, preds, vals, module):
     base = t["name"][:-2] if t["parameters"] else t["name"]
-    out.append("%s@lcc.test(%r)" % (pad, base))
+    decos = []
+    decos.append("%s@lcc.test(%r)" % (pad, base))
     for k, v in reversed(t["props"]):
-        out.append("%s@lcc.prop(%r, %r)" % (pad, k, v))
+        decos.append("%s@lcc.prop(%r, %r)" % (pad, k, v))
     if t["tags"]:
-        out.append("%s@lcc.tags(%s)" % (pad, ", ".join(repr(x) for x in t["tags"])))
+        decos.append("%s@lcc.tags(%s)" % (pad, ", ".join(repr(x) for x in t["tags"])))
     if t["disabled"]:
-        out.append("%s@lcc.disabled()" % pad)
+        decos.append("%s@lcc.disabled()" % pad)
     if t["deps"]:
         ds = []
         for d in t["deps"]:
@@ -290,11 +529,41 @@ def _test_source(out, pad, s, path, t, preds, vals, module):
             else:
                 preds.append(frozenset(d["pred"]))
                 ds.append("(lambda test, _s=PREDS[%d]: test.path in _s)" % (len(preds) - 1))
-        out.append("%s@lcc.depends_on(%s)" % (pad, ", ".join(ds)))
+        decos.append("%s@lcc.depends_on(%s)" % (pad, ", ".join(ds)))
     if t["parameters"]:
-        out.append("%s@lcc.parametrized([%s])" % (pad, "{" + ", ".join("%r: 1" % p for p in t["parameters"]) + "}"))
-    out.append("%sdef %s(%s):" % (pad, base, ", ".join(([] if module else ["self"]) + t["args"])))
+        decos.append("%s@lcc.parametrized([%s])" % (pad, "{" + ", ".join("%r: 1" % p for p in t["parameters"]) + "}"))
+    kind = call_kind(t)
+    self_ = [] if module else ["self"]
     tp = "%s.%s" % (path, t["name"])
+    own = list(t["args"])
+    recl = "%s    rec('test:%s'%s)" % (pad, tp, "".join(", %s=%s" % (a, a) for a in own))
+    if kind == "wraps":
+        # decorators are applied to the WRAPPER (the object the framework calls); the body lives in the wrapped function
+        # (a decorator `_wr_<name>` applied to the function that bears the test's name: the test is named after `__name__`,
+        #  which functools.wraps copies from the wrapped function)
+        out.append("%sdef _wr_%s(f):" % (pad, base))
+        out.append("%s    @functools.wraps(f)" % pad)
+        out.append("%s    def wrapper(%s):" % (pad, ", ".join(self_ + own)))
+        out.append("    " + recl)
+        out.append("%s        return f(%s)" % (pad, ", ".join(self_ + ["w_%s=%s" % (a, a) for a in own] + ["sup=0"])))
+        out.append("%s    return wrapper" % pad)
+        out.extend(decos)
+        out.append("%s@_wr_%s" % (pad, base))
+        out.append("%sdef %s(%s):" % (pad, base, ", ".join(self_ + inner_params(own))))
+        _test_body(out, pad, s, path, t, tp, vals, module)
+        return
+    out.extend(decos)
+    if kind == "patch":
+        out.append("%s@mock.patch('os.getcwd')" % pad)
+        out.append("%sdef %s(%s):" % (pad, base, ", ".join(self_ + own + ["m"])))
+        _test_body(out, pad, s, path, t, tp, vals, module)
+        return
+    out.append("%sdef %s(%s):" % (pad, base, ", ".join(self_ + own)))
+    out.append(recl)
+    _test_body(out, pad, s, path, t, tp, vals, module)
+
+
+def _test_body(out, pad, s, path, t, tp, vals, module):
     out.append("%s    hit('test:%s')" % (pad, tp))
     # a correct test body READS every injected attribute of its suite and relies on the fixture's value
     if s["attrs"]:
@@ -345,8 +614,25 @@ def _suite_source(s, path, ind, preds, vals):
         for a in inits:
             out.append("%s    self.%s = lcc.inject_fixture(%s)" % (p1, a["ident"], repr(a["fixture"]) if a["fixture"] is not None else ""))
     if s["setup_args"] is not None:
-        out.append("%sdef setup_suite(%s):" % (p1, ", ".join(self_ + s["setup_args"])))
-        out.append("%s    hit('setup_suite:%s')" % (p1, path))
+        kind = call_kind(s, "setup_call")
+        own = list(s["setup_args"])
+        recl = "%s    rec('setup_suite:%s'%s)" % (p1, path, "".join(", %s=%s" % (a, a) for a in own))
+        if kind == "wraps":
+            out.append("%sdef setup_suite__inner(%s):" % (p1, ", ".join(self_ + inner_params(own))))
+            out.append("%s    hit('setup_suite:%s')" % (p1, path))
+            out.append("%s@functools.wraps(setup_suite__inner)" % p1)
+            out.append("%sdef setup_suite(%s):" % (p1, ", ".join(self_ + own)))
+            out.append(recl)
+            out.append("%s    return %ssetup_suite__inner(%s)" % (p1, "" if module else "self.",
+                                                                ", ".join(["w_%s=%s" % (a, a) for a in own] + ["sup=0"])))
+        elif kind == "patch":
+            out.append("%s@mock.patch('os.getcwd')" % p1)
+            out.append("%sdef setup_suite(%s):" % (p1, ", ".join(self_ + own + ["m"])))
+            out.append("%s    hit('setup_suite:%s')" % (p1, path))
+        else:
+            out.append("%sdef setup_suite(%s):" % (p1, ", ".join(self_ + own)))
+            out.append(recl)
+            out.append("%s    hit('setup_suite:%s')" % (p1, path))
     if s.get("teardown"):
         out.append("%sdef teardown_suite(%s):" % (p1, ", ".join(self_)))
         out.append("%s    hit('teardown_suite:%s')" % (p1, path))
@@ -396,6 +682,7 @@ def make_project(case, top):
     from lemoncheesecake.project import Project
     from lemoncheesecake.suite import load_suites_from_classes, load_suite_from_module
     from lemoncheesecake.fixture import load_fixtures_from_func
+    from lemoncheesecake.exceptions import FixtureLoadingError, serialize_current_exception
 
     fsrc = fixtures_source(case)
     ssrcs, preds = suites_source(case)
@@ -413,20 +700,27 @@ def make_project(case, top):
                     # a suite module: `load_suite_from_module` on a real module object
                     mod = types.ModuleType(s["name"])
                     mod.__file__ = os.path.join(top, s["name"] + ".py")
-                    mod.__dict__.update({"lcc": lcc, "hit": hit, "chk_inj": chk_inj, "PREDS": preds})
+                    mod.__dict__.update({"lcc": lcc, "hit": hit, "rec": rec, "chk_inj": chk_inj, "PREDS": preds, "functools": functools, "mock": mock})
                     exec(code, mod.__dict__)
                     suite = load_suite_from_module(mod)
                     if not suite.hidden:
                         out.append(suite)
                 else:
-                    ns = {"lcc": lcc, "hit": hit, "chk_inj": chk_inj, "PREDS": preds}
+                    ns = {"lcc": lcc, "hit": hit, "rec": rec, "chk_inj": chk_inj, "PREDS": preds, "functools": functools, "mock": mock}
                     exec(code, ns)
                     out.extend(load_suites_from_classes([ns[s["name"]]]))
             return out
 
         def load_fixtures(self):
-            ns = {"lcc": lcc, "hit": hit}
-            exec(compile(fsrc, "<c14-fixtures>", "exec"), ns)
+            ns = {"lcc": lcc, "hit": hit, "rec": rec, "functools": functools, "mock": mock}
+            try:
+                exec(compile(fsrc, "<c14-fixtures>", "exec"), ns)
+            except Exception:
+                # what `load_fixtures_from_file` does with an exception raised while the fixture file is imported
+                # (`import_module` -> ModuleImportError -> FixtureLoadingError): e.g. the @lcc.fixture decorator refusing
+                # a (scope, per_thread) combination
+                raise FixtureLoadingError("Error while importing file '%s': %s" % (
+                    os.path.join(top, "fixtures.py"), serialize_current_exception(show_stacktrace=True)))
             out = []
             for i in range(len(case["decls"])):
                 out.extend(load_fixtures_from_func(ns["fx%d" % i]))
@@ -470,7 +764,7 @@ def classify(msg):
 def prepare_real(case, top):
     """-> (prepared | None, observation)"""
     from lemoncheesecake.project import PreparedProject
-    from lemoncheesecake.exceptions import ValidationError
+    from lemoncheesecake.exceptions import ValidationError, FixtureLoadingError
     from lemoncheesecake.testtree import filter_suites, flatten_tests, flatten_suites
 
     project = make_project(case, top)
@@ -494,6 +788,15 @@ def prepare_real(case, top):
         stage, kind, args = classify(str(e))
         return None, {"accepted": False, "exc": "ValidationError", "stage": stage, "kind": kind, "args": args,
                       "msg": str(e)[:300], "hits": list(_HITS)}
+    except FixtureLoadingError as e:
+        # the fixture file could not be imported; a REFUSAL of the declaration by the @lcc.fixture decorator is a rejection
+        # of the project before anything executes (stage `decl`), anything else is a crash of the generated source
+        msg = str(e)
+        if "AssertionError: The fixture can only be per_thread=True if scope is 'session' or 'suite'" in msg:
+            return None, {"accepted": False, "exc": "FixtureLoadingError", "stage": "decl", "kind": "per-thread-scope", "args": [],
+                          "msg": msg.strip().splitlines()[-2][:300], "hits": list(_HITS)}
+        return None, {"accepted": False, "exc": "FixtureLoadingError", "stage": "?", "kind": "CRASH", "args": [],
+                      "msg": msg[-300:], "hits": list(_HITS)}
     except BaseException as e:  # a crash instead of a ValidationError (RecursionError, KeyError, AssertionError, ...)
         if isinstance(e, (KeyboardInterrupt, SystemExit)):
             raise
@@ -529,11 +832,13 @@ def prepare_real(case, top):
 
 def _model_suite(s, path, keep):
     tests = []
+    module = s.get("kind") == "module"
     for t in s["tests"]:
         p = path + "." + t["name"]
         if keep is not None and p not in keep:
             continue
-        tests.append({"path": p, "args": t["args"], "parameters": t["parameters"], "disabled": t["disabled"],
+        tests.append({"path": p, "args": t["args"], "callable": callable_desc(call_kind(t), t["args"], not module),
+                      "parameters": t["parameters"], "disabled": t["disabled"],
                       "deps": [({"path": d["path"]} if "path" in d else {"pred": sorted(d["pred"])}) for d in t["deps"]],
                       "props": [list(kv) for kv in t["props"]], "tags": t["tags"]})
     subs = []
@@ -547,6 +852,8 @@ def _model_suite(s, path, keep):
             "attrs": [{"name": effective_name(s, a), "shape": shape_of(a["ident"]), "place": a["place"], "fixture": a["fixture"]}
                       for a in s["attrs"]],
             "setup_args": s["setup_args"] if s["setup_args"] is not None else [],
+            **({"setup_callable": callable_desc(call_kind(s, "setup_call"), s["setup_args"], not module)}
+               if s["setup_args"] is not None else {}),
             "props": [list(kv) for kv in s["props"]], "tags": s["tags"], "tests": tests, "subs": subs}
 
 
@@ -554,7 +861,8 @@ def model_request(case):
     keep = None if case["keep"] is None else set(case["keep"])
     all_ = [_model_suite(s, s["name"], None) for s in case["suites"]]
     sched = [m for m in (_model_suite(s, s["name"], keep) for s in case["suites"]) if m is not None]
-    decls = [{"names": d["names"], "scope": d["scope"], "per_thread": d["per_thread"], "params": d["params"]} for d in case["decls"]]
+    decls = [{"names": d["names"], "scope": d["scope"], "per_thread": d["per_thread"], "params": d["params"],
+              "callable": callable_desc(call_kind(d), d["params"], False)} for d in case["decls"]]
     return {"policy": case["policy"], "decls": decls, "all": all_, "sched": sched, "fd": case["fd"]}
 
 
@@ -673,6 +981,8 @@ def reference_violations(case, drop=()):
     # ---- fixtures ----
     fx = {b: {"scope": "pre_run", "per_thread": False, "params": []} for b in BUILTINS}
     for d in case["decls"]:
+        if d["per_thread"] and d["scope"] not in ("session", "suite"):
+            V.add("per-thread-scope")       # a wrongly DECLARED per-thread fixture (whether used or not)
         for n in d["names"]:
             if n in BUILTINS or n == "fixture_name":
                 V.add("forbidden-name")
@@ -715,6 +1025,7 @@ KIND_CLASS = {
     ("fixture", "suite-unknown"): "unknown-fixture", ("fixture", "suite-per-thread"): "per-thread",
     ("fixture", "suite-scope"): "scope-inversion", ("fixture", "test-unknown"): "unknown-fixture",
     ("deps", "unknown"): "unknown-dep", ("deps", "circular"): "cyclic-dep", ("deps", "not-scheduled"): "unscheduled-dep",
+    ("decl", "per-thread-scope"): "per-thread-scope",
 }
 
 
@@ -810,7 +1121,7 @@ def validation_failures(case, obs):
                                    "get_fixtures_scheduled_for_* raised on an accepted project: %s" % obs["sched_error"]))
         fails.extend(discovery_failures(case, obs))
         return fails
-    if obs["exc"] != "ValidationError":
+    if obs["exc"] != "ValidationError" and obs["stage"] != "decl":
         fails.append(C.Failure("C14/validate/crash-instead-of-ValidationError/" + obs["exc"],
                                "PreparedProject.create raised %s (%s); reference validator: %s" % (obs["exc"], obs["msg"], sorted(V) or "valid")))
         return fails
@@ -844,12 +1155,12 @@ def compare_prepare(obs, ans):
         return "code accepts, model rejects with %s.%s %s" % (ans["stage"], ans["kind"], ans["args"])
     if ans["kind"].startswith("CRASH"):
         return "model predicts a crash %s; code: %s" % (ans["kind"], obs["exc"])
-    if obs["exc"] != "ValidationError":
+    if obs["exc"] != "ValidationError" and obs["stage"] != "decl":
         return "code raised %s, model a ValidationError %s.%s" % (obs["exc"], ans["stage"], ans["kind"])
     if (obs["stage"], obs["kind"]) != (ans["stage"], ans["kind"]):
         return "different check fired: code %s.%s (%s) vs model %s.%s %s" % (
             obs["stage"], obs["kind"], obs["msg"], ans["stage"], ans["kind"], ans["args"])
-    if obs["kind"] != "circular" or obs["stage"] != "fixture":
+    if (obs["kind"] != "circular" or obs["stage"] != "fixture") and obs["stage"] != "decl":
         if obs["args"] != ans["args"]:
             return "same check, different culprit: code %s vs model %s (%s.%s)" % (obs["args"], ans["args"], obs["stage"], obs["kind"])
     return None
@@ -889,13 +1200,27 @@ def gen_case(rng, defect_rate, run_stream=False):
         if rng.random() < 0.15:
             params.insert(rng.randint(0, len(params)), "fixture_name")
         decls.append({"names": names, "scope": scope, "per_thread": per_thread, "params": params, "gen": rng.random() < 0.4})
+        if rng.random() < 0.32:
+            # HOW the fixture callable is written (the names it needs stay `params`)
+            decls[-1]["call"] = rng.choice(["wraps", "wraps", "wraps", "lambda", "cobj", "bound", "patch"])
         for n in names:
             names_of.append((n, scope, per_thread))
     defects = []
     # ---- fixture defects ----
     if rng.random() < pd:
-        kind = rng.choice(["cycle", "cycle", "inversion", "unknown", "forbidden", "builtin", "perthread", "dup", "selfloop"])
+        kind = rng.choice(["cycle", "cycle", "inversion", "unknown", "forbidden", "builtin", "perthread", "dup", "selfloop",
+                           "ptscope", "ptscope"])
         defects.append("fx-" + kind)
+        if kind == "ptscope":
+            # a per-thread fixture DECLARED with a scope the decorator refuses (pre_run / test), with whatever parameters and
+            # users the fixture already has — or a fresh unused one
+            if rng.random() < 0.75:
+                d = rng.choice(decls)
+            else:
+                d = {"names": ["pz0"], "scope": "test", "per_thread": False, "params": [], "gen": rng.random() < 0.4}
+                decls.insert(rng.randint(0, len(decls)), d)
+            d["per_thread"] = True
+            d["scope"] = rng.choice(["pre_run", "pre_run", "test"])
         if kind == "cycle":
             L = rng.randint(2, 6)
             cyc = ["cy%d" % i for i in range(L)]
@@ -993,8 +1318,11 @@ def gen_case(rng, defect_rate, run_stream=False):
             args.insert(rng.randint(0, len(args)), "p")
             name = name + "_1"
         props, tags = meta("test")
-        return {"name": name, "args": args, "parameters": parameters, "disabled": rng.random() < 0.15, "deps": [],
-                "props": props, "tags": tags}
+        t = {"name": name, "args": args, "parameters": parameters, "disabled": rng.random() < 0.15, "deps": [],
+             "props": props, "tags": tags}
+        if rng.random() < 0.2:
+            t["call"] = rng.choice(["wraps", "wraps", "wraps", "patch"])      # the test callback is a decorated callable
+        return t
 
     def add_attr(s, fixture, shape=None, place=None, nameless=False):
         """one more `ident = lcc.inject_fixture(fixture)` in suite `s`: naming shape, place of assignment, named or not"""
@@ -1026,6 +1354,8 @@ def gen_case(rng, defect_rate, run_stream=False):
              "attrs": [], "setup_args": sargs,
              "teardown": rng.random() < 0.3, "test_hooks": rng.random() < 0.2, "props": props, "tags": tags,
              "tests": [], "subs": []}
+        if sargs is not None and rng.random() < 0.3:
+            s["setup_call"] = rng.choice(["wraps", "wraps", "patch"])
         for f in rng.sample(usable_suite, min(rng.choice([0, 0, 1, 1, 2, 3]), len(usable_suite))):
             add_attr(s, f, nameless=(f not in BUILTINS and rng.random() < 0.15))
         if s["attrs"] and rng.random() < 0.04:
@@ -1150,6 +1480,17 @@ def case_features(case, obs):
         f.append("multi-name")
     if any(d["per_thread"] for d in case["decls"]):
         f.append("per-thread")
+    for d in case["decls"]:
+        if d["per_thread"]:
+            f.append("decl:per-thread@" + d["scope"])
+        if call_kind(d) != "plain":
+            f.append("call:fixture:" + call_kind(d))
+    for _, s, _ in _walk(case["suites"]):
+        if s["setup_args"] is not None and call_kind(s, "setup_call") != "plain":
+            f.append("call:setup_suite:" + call_kind(s, "setup_call"))
+        for t in s["tests"]:
+            if call_kind(t) != "plain":
+                f.append("call:test:" + call_kind(t) + ("@module" if s.get("kind") == "module" else ""))
     if any("pred" in d for _, s, _ in _walk(case["suites"]) for t in s["tests"] for d in t["deps"]):
         f.append("callable-dep")
     if any(s["attrs"] for _, s, _ in _walk(case["suites"])):
@@ -1192,6 +1533,9 @@ def shrink_case(case):
             c = copy.deepcopy(case); c["keep"] = None; yield c
         for i in range(len(case["decls"])):
             c = copy.deepcopy(case); del c["decls"][i]; yield c
+        for i, d in enumerate(case["decls"]):
+            if d.get("call"):
+                c = copy.deepcopy(case); del c["decls"][i]["call"]; yield c
         for i in range(len(case["suites"])):
             if len(case["suites"]) > 1:
                 c = copy.deepcopy(case); del c["suites"][i]; yield c
@@ -1214,6 +1558,8 @@ def shrink_case(case):
                     c = copy.deepcopy(case); del get(c)["tests"][j]; yield c
                 if s0["tests"][j]["deps"]:
                     c = copy.deepcopy(case); get(c)["tests"][j]["deps"] = []; yield c
+                if s0["tests"][j].get("call"):
+                    c = copy.deepcopy(case); del get(c)["tests"][j]["call"]; yield c
                 if s0["tests"][j]["args"]:
                     c = copy.deepcopy(case); t = get(c)["tests"][j]; t["args"] = list(t["parameters"]); yield c
                 if s0["tests"][j]["props"] or s0["tests"][j]["tags"]:
@@ -1226,6 +1572,8 @@ def shrink_case(case):
                 c = copy.deepcopy(case); get(c)["kind"] = "class"; yield c
             if s0["setup_args"]:
                 c = copy.deepcopy(case); get(c)["setup_args"] = []; yield c
+            if s0.get("setup_call"):
+                c = copy.deepcopy(case); del get(c)["setup_call"]; yield c
             if s0["props"] or s0["tags"]:
                 c = copy.deepcopy(case); s = get(c); s["props"] = []; s["tags"] = []; yield c
         if case["policy"]["props"] or case["policy"]["tags"] or case["policy"]["no_unknown_props"] or case["policy"]["no_unknown_tags"]:
@@ -1336,7 +1684,42 @@ SHAPE_CORPUS = [
     _inj_case([_a("_ja", "db", "module"), _a("_jb", "db", "module")], kind="module"),
 ]
 
-CORPUS = SHAPE_CORPUS + [
+# round 3 — HOW callables are written (seeded C14-7) and which (scope, per_thread) declarations exist (seeded C14-8)
+_FX4 = [_d(["db"], "session"), _d(["cfg"], "pre_run"), _d(["conn"], "suite", ["db"], per_thread=True), _d(["tmp"], "test", ["conn", "db"])]
+
+
+def _call_case(decls, suites, fd=False):
+    return {"policy": NOPOL, "fd": fd, "keep": None, "defects": [], "decls": decls, "suites": suites}
+
+
+CALL_CORPUS = [
+    # VALID: a test, a fixture and setup_suite each wrapped by a functools.wraps decorator whose wrapper has its own parameters
+    # (renamed + one supplied for the wrapped function); a mock.patch-ed test, fixture and setup_suite needing nothing
+    _call_case([dict(_d(["db"], "session"), call="wraps"), dict(_d(["tmp"], "test", ["db", "fixture_name"]), call="wraps"),
+                dict(_d(["cwd"], "suite"), call="patch")],
+               [dict(_s("s1", [dict(_t("t0", ["tmp", "db"]), call="wraps"), dict(_t("t1"), call="patch"),
+                               dict(_t("t2_1", ["p", "cwd"], parameters=["p"]), call="wraps")], setup_args=["db"]), setup_call="wraps"),
+                dict(_s("s2", [dict(_t("t0", ["tmp"]), call="wraps")], setup_args=[], kind="module"), setup_call="patch")]),
+    # VALID: fixtures written as a lambda, a callable object, a bound method of a holder object (generator and plain)
+    _call_case([dict(_d(["db"], "session", gen=True), call="cobj"), dict(_d(["cfg"], "pre_run", ["project_dir"]), call="lambda"),
+                dict(_d(["tmp", "tmp2"], "test", ["db", "cfg"], gen=True), call="bound"), dict(_d(["conn"], "suite", ["db"], per_thread=True), call="wraps")],
+               [_s("s1", [_t("t0", ["tmp", "conn"]), _t("t1", ["tmp2", "cfg"])], injected=["db"], setup_args=["cfg"])]),
+    # INVALID: the wrapper of a decorated test / fixture / setup_suite needs an unknown fixture (the wrapped function's
+    # parameters would all be fine)
+    _call_case([_d(["db"], "session")], [_s("s1", [dict(_t("t0", ["nx"]), call="wraps")])]),
+    _call_case([dict(_d(["db"], "session", ["nx"]), call="wraps")], [_s("s1", [_t("t0", ["db"])])]),
+    _call_case([_d(["db"], "session")], [dict(_s("s1", [_t("t0")], setup_args=["nx"]), setup_call="wraps")]),
+    # @lcc.fixture(scope, per_thread=True) for EVERY scope: pre_run and test are refused at declaration time — used by a
+    # test, used by another fixture, used by nobody; session / suite are accepted
+    _call_case([_d(["pa"], "pre_run", per_thread=True)], [_s("s1", [_t("t0", ["pa"]), _t("t1")])]),
+    _call_case([_d(["pa"], "pre_run", per_thread=True)], [_s("s1", [_t("t0"), _t("t1")])]),
+    _call_case([_d(["pa"], "pre_run", per_thread=True, gen=True), _d(["tmp"], "test", ["pa"])], [_s("s1", [_t("t0", ["tmp"]), _t("t1", ["tmp"])])]),
+    _call_case([_d(["pa"], "test", per_thread=True)], [_s("s1", [_t("t0", ["pa"])])]),
+    _call_case([_d(["cfg"], "pre_run"), _d(["pa"], "test", ["cfg"], per_thread=True)], [_s("s1", [_t("t0")])]),
+    _call_case([dict(d) for d in _FX4], [_s("s1", [_t("t0", ["tmp", "conn"]), _t("t1", ["conn"])], setup_args=["cfg"])]),
+]
+
+CORPUS = CALL_CORPUS + SHAPE_CORPUS + [
     D18_WITNESS,
     dict(D18_WITNESS, keep=None),
     DIAMOND_CASE,
@@ -1467,6 +1850,46 @@ def run_real(case, top, timeout=25.0):
         shutil.rmtree(report_dir, ignore_errors=True)
 
 
+def received_failures(case, hits, n):
+    """Every test / fixture / setup_suite callable that was CALLED received exactly the keyword arguments it is written
+    with (its own positional parameters), each holding the value of the fixture of that name (or the parameter value)."""
+    vals = _fixture_values(case)
+    own = {}
+    for i, d in enumerate(case["decls"]):
+        own["fixture:%d" % i] = (d["params"], {}, set(d["names"]))
+    for path, s, _ in _walk(case["suites"]):
+        if s["setup_args"] is not None:
+            own["setup_suite:" + path] = (s["setup_args"], {}, set())
+        for t in s["tests"]:
+            own["test:%s.%s" % (path, t["name"])] = (t["args"], {p: 1 for p in t["parameters"]}, set())
+    fails, seen = [], set()
+    for h in hits:
+        if not h.startswith("args:"):
+            continue
+        _, what, ident, kv = h.split(":", 3)
+        tag = what + ":" + ident
+        got = dict(x.split("=", 1) for x in kv.split(",") if x)
+        if tag not in own:
+            continue
+        want, params, fnames = own[tag]
+        bad = None
+        if sorted(got) != sorted(want):
+            bad = "received the keywords %s, is written with the parameters %s" % (sorted(got), sorted(want))
+        else:
+            for k, v in got.items():
+                exp = params.get(k, vals.get(k))
+                if k == "fixture_name":
+                    if fnames and v not in fnames:
+                        bad = "fixture_name=%s is none of its names %s" % (v, sorted(fnames))
+                elif exp is not None and v != str(exp):
+                    bad = "%s=%s, the fixture / parameter of that name has the value %s" % (k, v, exp)
+        if bad and what not in seen:
+            seen.add(what)
+            fails.append(C.Failure("C14/run/callable-received-wrong-arguments/" + what,
+                                   "accepted project, nb_threads=%d: %s %s" % (n, tag, bad)))
+    return fails
+
+
 class Run(C.Stream):
     name = "C14.run"
     quick_cases = 800
@@ -1474,7 +1897,7 @@ class Run(C.Stream):
     quick_seconds = 35
     thorough_seconds = 420
     chunk = 50
-    corpus = ([dict(c, threads=(1, 3)[i % 2]) for i, c in enumerate(SHAPE_CORPUS)] +
+    corpus = ([dict(c, threads=(1, 3)[i % 2]) for i, c in enumerate(CALL_CORPUS + SHAPE_CORPUS)] +
               [dict(c, threads=n) for c in (D18_WITNESS, dict(D18_WITNESS, keep=None), DIAMOND_CASE) for n in (1, 3)] +
               [dict(D1_WITNESS, threads=n) for n in (1, 3)])
 
@@ -1552,6 +1975,7 @@ class Run(C.Stream):
         if run["bad_setups"] or (not run["successful"] and not notok):
             fails.append(C.Failure("C14/run/accepted-project-run-not-successful",
                                    "report not successful / failing setup or teardown: %s" % run["bad_setups"][:4]))
+        fails.extend(received_failures(case, run["hits"], n))
         keep = None if case["keep"] is None else set(case["keep"])
         expected = sorted(p + "." + t["name"] for p, s, _ in _walk(case["suites"]) for t in s["tests"]
                           if keep is None or (p + "." + t["name"]) in keep)
